@@ -1,20 +1,10 @@
 // ---- prelude/rustix.rs: the rustix / libc boundary (A7: arguments reach the kernel unchanged)
 // The preconditions below ARE the syscall discipline of C05 at the lowest level under contract;
 // the postconditions are the kernel axioms A1/A4 (DESIGN.md 4.2).
-pub struct OFlags { pub bits: i32 }
-impl vstd::std_specs::convert::FromSpecImpl<OpenFlags> for OFlags {
-    open spec fn obeys_from_spec() -> bool { true }
-    open spec fn from_spec(f: OpenFlags) -> OFlags { OFlags { bits: f.bits } }
-}
-/// flags.rs: `impl From<OpenFlags> for rustix::fs::OFlags` = from_bits_retain(bits as u32) (not extracted; A7)
-//@frozen src/flags.rs :: impl From<OpenFlags> for rustix::fs::OFlags fn from
-//@frozen src/flags.rs :: impl From<RenameFlags> for rustix::fs::RenameFlags fn from
+//@include prelude/rustix_flags.rs
+/// flags.rs: `impl From<OpenFlags> for rustix::fs::OFlags` / `impl From<RenameFlags> for rustix::fs::RenameFlags`: stubs here,
+/// their repository text is proved against the same `from_spec` in U28
 impl From<OpenFlags> for OFlags { fn from(f: OpenFlags) -> (r: OFlags) { OFlags { bits: f.bits } } }
-pub struct RustixRenameFlags { pub bits: u32 }
-impl vstd::std_specs::convert::FromSpecImpl<RenameFlags> for RustixRenameFlags {
-    open spec fn obeys_from_spec() -> bool { true }
-    open spec fn from_spec(f: RenameFlags) -> RustixRenameFlags { RustixRenameFlags { bits: f.bits } }
-}
 impl From<RenameFlags> for RustixRenameFlags { fn from(f: RenameFlags) -> (r: RustixRenameFlags) { RustixRenameFlags { bits: f.bits } } }
 pub struct Mode { pub raw: u32 }
 impl Mode { pub fn from_raw_mode(m: u32) -> (r: Mode) ensures r.raw == m { Mode { raw: m } } }
